@@ -1,5 +1,349 @@
+//! C11 — max_step, first_step and max_steps are honoured.
+
+use super::common::*;
 use crate::ctx::{Ctx, Meta};
+use crate::probe::*;
 use crate::report::Report;
+use crate::rng::Rng;
+use crate::util::{bits_eq, bits_eq2, par_for, EPS};
+use ivp::prelude::*;
+use serde_json::json;
+
+/// number of stepper evaluations of one step attempt that precede (and include) the stage at x + h
+fn attempt_len(m: Method) -> usize {
+    match m {
+        Method::RK4 => 3,    // k2, k3, k4 (k4 at x + h)
+        Method::RK23 => 3,   // k2, k3, k4 (k4 at x + h)
+        Method::DOPRI5 => 5, // k2..k6 (k6 at x + h)
+        Method::DOP853 => 11,
+        Method::RADAU => 3, // first Newton iteration: c1, c2, 1
+        Method::BDF => 1,   // f at x_new
+    }
+}
+
 pub fn run(ctx: &Ctx) -> (Report, Meta) {
-    (Report::new(&ctx.prop), Meta::new("not built yet"))
+    let meta = Meta::new(
+        "bounded problems x 6 methods x both directions x tolerances; (a) max_step in {inf, span/4 exactly, span/7, random, smaller than the automatic first step}: every reported interval (no t_eval/first_step) and every callback interval of the low-level builders is compared with max_step (final step may be stretched by 1%); (b) first_step <= min(max_step, span): the first trial step is decoded from the recorded right-hand-side calls (largest |t - x0| among the stage evaluations of the first attempt, which always includes a stage at x0 + h) and the first accepted interval from the first callback; (c) max_steps = k from {1,2,3,5,10, N-1, N, N+5} with N taken from the unbudgeted twin: nstep <= k+1, status NeedLargerNMax exactly when the budget ran out, returned t/y bit-identical to the prefix of the unbudgeted twin; non-trivial = option actually binding (a step clipped by max_step, a first step accepted, a budget that ran out), distinct by scenario hash",
+    )
+    .assume("per attempt every method evaluates a stage at x + h (c = 1); attempt lengths RK4 3, RK23 3, DOPRI5 5, DOP853 11, Radau 3, BDF 1 stepper evaluations (cross-checked by the C02 extraction)")
+    .thresholds(json!({"max_step_slack": "4 eps relative", "final_step_stretch": 1.01}))
+    .floor("max_step_intervals_checked", 20000)
+    .floor("steps_clipped_by_max_step", 2000)
+    .floor("first_trial_steps_decoded", 500)
+    .floor("first_steps_accepted", 200)
+    .floor("budget_pairs_checked", 500)
+    .floor("budgets_that_ran_out", 200);
+    let g = GenOpts { bidirectional_problems: true, max_span: 30.0, ..Default::default() };
+
+    // ---------------- (a) max_step ----------------
+    let na = ctx.size(2_500, 80_000);
+    let rep = par_for(na, "C11", |i, rep| {
+        let case_id = format!("maxstep/{}", i);
+        if !ctx.want(&case_id) {
+            return;
+        }
+        let mut rng = Rng::derive(ctx.seed, 11, i as u64);
+        let (prob, mut scn) = gen_case(&mut rng, &g);
+        if scn.method == Method::RK4 {
+            scn.method = *rng.pick(&ADAPTIVE);
+            scn.user_jac = false;
+        }
+        let m = mname(scn.method);
+        let span = (scn.xend - scn.x0).abs();
+        let hm = match i % 6 {
+            0 => f64::INFINITY,
+            1 => span / 4.0,
+            2 => span / 7.0,
+            3 => span * rng.logu(1e-3, 0.5),
+            4 => span * rng.logu(1e-5, 1e-3), // smaller than the automatic first step
+            _ => span * rng.range(0.02, 0.3),
+        };
+        scn.max_step = Some(hm);
+        scn.first_step = if rng.chance(0.3) && hm.is_finite() { Some(scn.dir() * hm * rng.range(0.2, 1.0)) } else { None };
+        scn.budget = 2_000_000;
+        let low = i % 2 == 0;
+        let mut case = scn.describe(&prob);
+        case["api"] = json!(if low { "low_level" } else { "solve_ivp" });
+        let cls = if !hm.is_finite() { "inf" } else if i % 6 == 4 { "below_auto_first_step" } else { "finite" };
+        // collect accepted intervals
+        let (ts, status_ok): (Vec<f64>, bool) = if low {
+            let mut probe = Probe::new(&prob, scn.x0);
+            probe.user_jac = scn.user_jac;
+            probe.budget = scn.budget;
+            let lo = LowOpts { max_step: scn.max_step, first_step: scn.first_step, dense: rng.bool(), ..Default::default() };
+            let mut so = RecSolOut::new(Some(&probe));
+            match run_low_guarded(scn.method, &probe, scn.x0, &scn.y0, scn.xend, &scn.rtol, &scn.atol, &lo, &mut so) {
+                LowOutcome::Ok(ir) => (so.cbs.iter().map(|c| c.x).collect(), ir.status == Status::Success),
+                LowOutcome::Panic(msg) => {
+                    rep.violate(&format!("C11/no_panic/{}/max_step_{}", m, cls), format!("panic: {}", msg), &case_id, case);
+                    return;
+                }
+                LowOutcome::Budget => {
+                    rep.inconclusive("evaluation_budget_exhausted");
+                    return;
+                }
+                LowOutcome::Err(_) => {
+                    rep.count("config_errors_returned", 1);
+                    return;
+                }
+            }
+        } else {
+            let mut s2 = scn.clone();
+            s2.first_step = None; // solve_ivp filters the output when first_step is given
+            let r = run_solve(&prob, &s2, false, false);
+            match r.out {
+                Outcome::Ok(sol) => (sol.t.clone(), sol.status == Status::Success),
+                Outcome::Panic(msg) => {
+                    rep.violate(&format!("C11/no_panic/{}/max_step_{}", m, cls), format!("panic: {}", msg), &case_id, case);
+                    return;
+                }
+                Outcome::Budget => {
+                    rep.inconclusive("evaluation_budget_exhausted");
+                    return;
+                }
+                Outcome::Err(_) => {
+                    rep.count("config_errors_returned", 1);
+                    return;
+                }
+            }
+        };
+        rep.eval();
+        let nint = ts.len().saturating_sub(1);
+        let mut clipped = 0;
+        for k in 0..nint {
+            let h = (ts[k + 1] - ts[k]).abs();
+            let last = k + 1 == nint && status_ok;
+            let tol = 4.0 * EPS * ts[k].abs().max(ts[k + 1].abs());
+            let lim = if last { 1.01 * hm } else { hm };
+            rep.count("max_step_intervals_checked", 1);
+            if hm.is_finite() && h >= hm * (1.0 - 1e-12) {
+                clipped += 1;
+            }
+            if h > lim * (1.0 + 4.0 * EPS) + tol {
+                let mut c2 = case.clone();
+                c2["interval"] = json!({"index": k, "from": ts[k], "to": ts[k + 1], "length": h, "is_final": last});
+                rep.violate(
+                    &format!("C11/step_le_max_step/{}/{}{}", m, cls, if k == 0 { "_first_step" } else if last { "_final_step" } else { "" }),
+                    format!("accepted step {} of {} has length {:e} > max_step {:e}{}", k, nint, h, hm, if last { " (even with the 1% final stretch)" } else { "" }),
+                    &case_id,
+                    c2,
+                );
+                break;
+            }
+        }
+        rep.count("steps_clipped_by_max_step", clipped);
+        if clipped > 0 {
+            rep.nontrivial(scn_hash(&scn, &prob));
+        }
+        if i % 997 == 0 {
+            rep.sample(json!({"clause": "max_step", "scenario": case, "intervals": nint, "clipped": clipped}));
+        }
+    });
+
+    // ---------------- (b) first_step ----------------
+    let nb = ctx.size(2_500, 80_000);
+    let rep_b = par_for(nb, "C11", |i, rep| {
+        let case_id = format!("firststep/{}", i);
+        if !ctx.want(&case_id) {
+            return;
+        }
+        let mut rng = Rng::derive(ctx.seed, 1111, i as u64);
+        let (prob, mut scn) = gen_case(&mut rng, &g);
+        let m = mname(scn.method);
+        let span = (scn.xend - scn.x0).abs();
+        let dirn = scn.dir();
+        let hm = if rng.chance(0.4) && scn.method != Method::RK4 { Some(span * rng.logu(1e-3, 2.0)) } else { None };
+        let cap = hm.unwrap_or(f64::INFINITY).min(span);
+        // first_step not larger than max_step or the span; tiny, moderate, or exactly the cap
+        let fs = match i % 5 {
+            0 => cap * rng.logu(1e-6, 1e-2),
+            1 => cap * rng.range(0.01, 0.5),
+            2 => cap,
+            3 => cap * rng.range(0.5, 1.0),
+            _ => cap * rng.logu(1e-4, 1.0),
+        };
+        let signed = if scn.method == Method::RK4 || rng.chance(0.8) { dirn * fs } else { -dirn * fs };
+        scn.max_step = hm;
+        scn.first_step = Some(signed);
+        let mut probe = Probe::new(&prob, scn.x0);
+        probe.user_jac = scn.user_jac;
+        probe.keep_calls = true;
+        probe.budget = 2_000_000;
+        let lo = LowOpts { max_step: hm, first_step: Some(signed), dense: rng.bool(), ..Default::default() };
+        let mut so = RecSolOut::new(Some(&probe));
+        let out = run_low_guarded(scn.method, &probe, scn.x0, &scn.y0, scn.xend, &scn.rtol, &scn.atol, &lo, &mut so);
+        rep.eval();
+        let mut case = scn.describe(&prob);
+        case["api"] = json!("low_level");
+        let cls = if fs == cap { "equals_cap" } else if signed * dirn < 0.0 { "wrong_sign" } else { "inside" };
+        match out {
+            LowOutcome::Ok(_) => {}
+            LowOutcome::Panic(msg) => {
+                rep.violate(&format!("C11/no_panic/{}/first_step_{}", m, cls), format!("panic: {}", msg), &case_id, case);
+                return;
+            }
+            LowOutcome::Budget => {
+                rep.inconclusive("evaluation_budget_exhausted");
+                return;
+            }
+            LowOutcome::Err(_) => {
+                rep.count("config_errors_returned", 1);
+                return;
+            }
+        }
+        let log = probe.take_log();
+        let stepper: Vec<&CallRec> = log.calls.iter().filter(|c| c.kind == 0).collect();
+        let al = attempt_len(scn.method);
+        if stepper.len() < 1 + al {
+            rep.inconclusive("too_few_evaluations_to_decode");
+            return;
+        }
+        // calls[0] is f(x0, y0); the first attempt follows
+        let trial = stepper[1..=al].iter().fold(0.0f64, |mx, c| mx.max((c.t - scn.x0).abs()));
+        rep.count("first_trial_steps_decoded", 1);
+        let tol = 8.0 * EPS * (scn.x0.abs() + fs) + 4.0 * EPS * fs;
+        let mut c2 = case.clone();
+        c2["decoded"] = json!({"first_trial_step": trial, "first_step": fs, "first_attempt_times": stepper[1..=al].iter().map(|c| c.t).collect::<Vec<_>>()});
+        // a first step that is also the final one may be stretched by up to 1% to land on xend
+        let stretched_landing = (trial - span).abs() <= tol && span <= 1.01 * fs * (1.0 + 4.0 * EPS);
+        if (trial - fs).abs() > tol && !stretched_landing {
+            rep.violate(&format!("C11/first_trial_step/{}/{}", m, cls), format!("first trial step decoded from the stage times is {:e} but first_step = {:e}", trial, fs), &case_id, c2.clone());
+            return;
+        }
+        // direction of the first attempt
+        if stepper[1..=al].iter().any(|c| (c.t - scn.x0) * dirn < -tol) {
+            rep.violate(&format!("C11/first_trial_direction/{}/{}", m, cls), "the first attempt evaluates f on the wrong side of x0".into(), &case_id, c2.clone());
+            return;
+        }
+        // if accepted, the first reported interval is first_step
+        if so.cbs.len() >= 2 {
+            let h1 = (so.cbs[1].x - scn.x0).abs();
+            let accepted_first = (h1 - fs).abs() <= tol || (stretched_landing && (h1 - span).abs() <= tol);
+            if accepted_first {
+                rep.count("first_steps_accepted", 1);
+                rep.nontrivial(scn_hash(&scn, &prob));
+            } else if !is_implicit(scn.method) {
+                // a different first interval needs a second attempt: more evaluations than one attempt
+                let extra = match scn.method {
+                    Method::RK4 => 1,
+                    Method::DOP853 => 5,
+                    Method::DOPRI5 => 1,
+                    _ => 0,
+                };
+                let calls_before = stepper.iter().filter(|c| true && c.kind == 0).count().min(so.cbs[1].calls_at_entry as usize);
+                if calls_before <= 1 + al + extra {
+                    rep.violate(&format!("C11/first_interval/{}/{}", m, cls), format!("the first attempt (h = {:e}) was the only one made before the first callback, but the first reported interval is {:e}", fs, h1), &case_id, c2.clone());
+                }
+                if h1 > fs + tol {
+                    rep.violate(&format!("C11/first_interval/{}/{}", m, cls), format!("first reported interval {:e} is longer than first_step {:e}", h1, fs), &case_id, c2.clone());
+                }
+            }
+        }
+        if i % 997 == 0 {
+            rep.sample(c2);
+        }
+    });
+
+    // ---------------- (c) max_steps ----------------
+    let nc = ctx.size(2_000, 60_000);
+    let rep_c = par_for(nc, "C11", |i, rep| {
+        let case_id = format!("budget/{}", i);
+        if !ctx.want(&case_id) {
+            return;
+        }
+        let mut rng = Rng::derive(ctx.seed, 111111, i as u64);
+        let (prob, mut scn) = gen_case(&mut rng, &g);
+        let m = mname(scn.method);
+        if scn.method == Method::RK4 {
+            scn.first_step = Some(scn.dir() * (scn.xend - scn.x0).abs() / rng.range(8.0, 120.0));
+        } else if rng.chance(0.2) {
+            // a far too large first step provokes rejections before the second accepted step
+            scn.first_step = Some(scn.dir() * (scn.xend - scn.x0).abs() * rng.range(0.3, 1.0));
+        }
+        scn.dense = rng.bool();
+        if rng.chance(0.3) {
+            scn.events.push(random_event(&mut rng, scn.y0.len(), scn.x0, scn.xend));
+        }
+        let unb = run_solve(&prob, &scn, false, false);
+        let u = match &unb.out {
+            Outcome::Ok(s) if s.status == Status::Success => s,
+            Outcome::Panic(msg) => {
+                rep.violate(&format!("C11/no_panic/{}/budget", m), format!("panic: {}", msg), &case_id, scn.describe(&prob));
+                return;
+            }
+            _ => {
+                rep.inconclusive("unbudgeted_twin_not_successful");
+                return;
+            }
+        };
+        let nn = u.nstep.max(1);
+        let k = match i % 8 {
+            0 => 1,
+            1 => 2,
+            2 => 3,
+            3 => 5,
+            4 => 10,
+            5 => nn.saturating_sub(1).max(1),
+            6 => nn,
+            _ => nn + 5,
+        };
+        let mut sb = scn.clone();
+        sb.max_steps = Some(k);
+        let rb = run_solve(&prob, &sb, false, false);
+        rep.evals(2);
+        let mut case = sb.describe(&prob);
+        case["unbudgeted"] = json!({"nstep": u.nstep, "naccpt": u.naccpt, "nrejct": u.nrejct, "len_t": u.t.len()});
+        let b = match &rb.out {
+            Outcome::Ok(s) => s,
+            Outcome::Panic(msg) => {
+                rep.violate(&format!("C11/no_panic/{}/budget", m), format!("panic: {}", msg), &case_id, case);
+                return;
+            }
+            _ => {
+                rep.inconclusive("budgeted_run_not_ok");
+                return;
+            }
+        };
+        rep.count("budget_pairs_checked", 1);
+        case["budgeted"] = json!({"nstep": b.nstep, "naccpt": b.naccpt, "status": format!("{:?}", b.status), "len_t": b.t.len()});
+        let cls = if k >= nn { "not_binding" } else { "binding" };
+        if b.nstep > k + 1 {
+            rep.violate(&format!("C11/nstep_le_budget_plus_1/{}/{}", m, cls), format!("max_steps = {} but nstep = {}", k, b.nstep), &case_id, case.clone());
+        }
+        if u.nstep <= k {
+            // the budget is not binding: nothing may change
+            if b.status != Status::Success || !bits_eq(&b.t, &u.t) || !bits_eq2(&b.y, &u.y) {
+                rep.violate(&format!("C11/unbinding_budget_changes_run/{}/{}", m, cls), format!("the unbudgeted run needs {} steps <= max_steps = {} but the budgeted run differs (status {:?})", u.nstep, k, b.status), &case_id, case.clone());
+            }
+        } else {
+            if u.nstep > k + 1 {
+                rep.count("budgets_that_ran_out", 1);
+                rep.nontrivial(scn_hash(&sb, &prob));
+                if b.status != Status::NeedLargerNMax {
+                    rep.violate(&format!("C11/status_need_larger_nmax/{}/{}", m, cls), format!("the unbudgeted run needs {} steps > max_steps + 1 = {} but status is {:?}", u.nstep, k + 1, b.status), &case_id, case.clone());
+                }
+            }
+            if b.status != Status::NeedLargerNMax && b.status != Status::Success {
+                rep.violate(&format!("C11/status_need_larger_nmax/{}/{}", m, cls), format!("unexpected status {:?}", b.status), &case_id, case.clone());
+            }
+            // prefix
+            let kk = b.t.len();
+            if kk > u.t.len() || !bits_eq(&b.t, &u.t[..kk]) || !bits_eq2(&b.y, &u.y[..kk]) {
+                let mut c2 = case.clone();
+                c2["budgeted_t"] = crate::util::jv_trunc(&b.t, 30);
+                c2["unbudgeted_t"] = crate::util::jv_trunc(&u.t, 30);
+                rep.violate(&format!("C11/prefix_of_unbudgeted_run/{}/{}", m, cls), "the budgeted result is not bit-identical to the corresponding prefix of the unbudgeted run".into(), &case_id, c2);
+            }
+            if b.status == Status::NeedLargerNMax && b.t.is_empty() {
+                rep.violate(&format!("C11/prefix_of_unbudgeted_run/{}/{}", m, cls), "budget ran out and no sample at all was returned".into(), &case_id, case.clone());
+            }
+        }
+        if i % 997 == 0 {
+            rep.sample(json!({"clause": "max_steps", "scenario": case}));
+        }
+    });
+    let mut rep = rep;
+    rep.merge(rep_b);
+    rep.merge(rep_c);
+    (rep, meta)
 }
